@@ -17,9 +17,14 @@ CHECKS = {
                      '(all valid titles up to length 2/3), integer literals, all $ placements, every single/pair white-space placement and leading-= spelling on 10 '
                      'construct-covering skeletons and enumerated tree skeletons, the real parse equals the tree the text denotes (oracle = the generator\'s own tree).',
                 note=XH_NOTE + ' The named-range table handed to the parser is an empty dict subclass whose membership test compares by equality (avoids hashing symbolic strings).'),
+    'C09': dict(engine='XH', technique='symbolic execution (CrossHair+z3) of the six comparison operators over typed symbolic operand pairs/triples vs a key-order oracle',
+                text='Bounded symbolic model checking: for every pair of operand types (int, float, text, boolean; dates and blanks separately) all six operators, '
+                     'as OP_* calls and as formulas, equal the order number < text(case-insensitive) < FALSE < TRUE for ALL values in the bounds; trichotomy/duality/'
+                     'transitivity asserted directly; blank = 0 = "" = FALSE and blank = blank.',
+                note=XH_NOTE + ' Text-vs-text is bounded to a 6-letter alphabet (length <= 2) plus all code points at length <= 1 because of z3 string-order cost.'),
 }
 NA = {
     'C12': 'persist/restore is ten lines around jsonpickle -> json (C encoder) -> gzip/file I/O; no repo-side kernel a solver can quantify over (symbolic values are realised or pickled as proxy objects at the codec boundary)',
 }
-for _p in ['C03', 'C04', 'C05', 'C06', 'C07', 'C08', 'C09', 'C10', 'C11', 'C13', 'C14', 'C15', 'C16', 'C17', 'C18', 'C19', 'C20']:
+for _p in ['C03', 'C04', 'C05', 'C06', 'C07', 'C08', 'C10', 'C11', 'C13', 'C14', 'C15', 'C16', 'C17', 'C18', 'C19', 'C20']:
     NA.setdefault(_p, 'check not built yet in this revision (planned: see DESIGN.md §4)')
